@@ -884,6 +884,9 @@ func (tr *translator) calleeName(fun ast.Expr) (name string, recvExpr ast.Expr, 
 					return f.Name, nil, false, true
 				}
 			}
+			if m, ok := tr.siblingModule(f.Name); ok {
+				return m + "." + f.Name, nil, false, true
+			}
 		}
 	case *ast.SelectorExpr:
 		if sel := tr.pi.info.Selections[f]; sel != nil && sel.Kind() == types.MethodVal {
@@ -910,6 +913,12 @@ func (tr *translator) calleeName(fun ast.Expr) (name string, recvExpr ast.Expr, 
 						known = true
 					}
 				}
+				if !known {
+					if m, ok := tr.siblingModule(nm.Obj().Name() + "." + f.Sel.Name); ok {
+						mod = m + "."
+						known = true
+					}
+				}
 			} else if m, ok := pkgToMod[pkgPath]; ok {
 				mod = m + "."
 				known = true
@@ -933,6 +942,22 @@ func (tr *translator) calleeName(fun ast.Expr) (name string, recvExpr ast.Expr, 
 		}
 	}
 	return "", nil, false, false
+}
+
+// siblingModule: a function of the SAME package translated by another module that this one lists in Requires
+func (tr *translator) siblingModule(fn string) (string, bool) {
+	for _, r := range tr.t.Requires {
+		for _, t := range targets {
+			if t.Module == r && t.Dir == tr.t.Dir && t.GOARCH == tr.t.GOARCH {
+				for _, n := range t.Funcs {
+					if n == fn {
+						return t.Module, true
+					}
+				}
+			}
+		}
+	}
+	return "", false
 }
 
 func (tr *translator) stateOf(pkgPath, typeName string) ([]string, bool) {
